@@ -1008,6 +1008,52 @@ func (c *specCtx) call(n *SCall) (Val, types.Type) {
 			c.fail("rpos needs an io.Reader value")
 		}
 		return scalar(tb.Select(c.ghostArr("rpos", SArrI), readerKey(tb, v))), untypedInt
+	case "wcount":
+		// wcount(w): number of tokens written to w so far (token model)
+		v, _ := arg(0)
+		return scalar(tb.Select(c.ghostArr("wcount", SArrI), writerKey(tb, v))), untypedInt
+	case "rcount":
+		// rcount(r): number of tokens consumed from r so far (token model)
+		v, _ := arg(0)
+		return scalar(tb.Select(c.ghostArr("rcount", SArrI), readerKey(tb, v))), untypedInt
+	case "desync":
+		// desync(r): some read on r did not use the kind/length that was written (token model); what r yields afterwards is arbitrary
+		v, _ := arg(0)
+		return scalar(tb.Select(c.ghostArr("desync", SArrB), readerKey(tb, v))), boolType
+	case "wtokKind", "wtokVal", "wtokLen":
+		// wtokKind/Val/Len(w, i): the i-th token written to w
+		v, _ := arg(0)
+		i, _ := arg(1)
+		part := map[string]string{"wtokKind": "tkind", "wtokVal": "tval", "wtokLen": "tlen"}[name]
+		return scalar(tb.Select(tb.Select(c.ghostArr(part, SArr2I), writerKey(tb, v)), i.T[0])), untypedInt
+	case "tokkind":
+		s, ok := n.Args[0].(*SStr)
+		if !ok {
+			c.fail("tokkind needs a string literal")
+		}
+		return scalar(c.e.tokKind(s.V)), untypedInt
+	case "marshalOf", "encOf":
+		// marshalOf(x) / encOf(x): the token value that stands for x.MarshalBinary() / x.Encode of a value of unknown dynamic type
+		v, _ := arg(0)
+		if len(v.T) != 2 {
+			c.fail(name + " needs an interface value")
+		}
+		return scalar(tb.App(map[string]string{"marshalOf": "marshalval", "encOf": "encval"}[name], SInt, v.T[0], v.T[1])), untypedInt
+	case "unmarshalledFrom", "decodedFrom":
+		// unmarshalledFrom(y) / decodedFrom(y): the token value y's UnmarshalBinary / Decode was last given
+		v, _ := arg(0)
+		if len(v.T) != 2 {
+			c.fail(name + " needs an interface value")
+		}
+		return scalar(tb.Select(c.ghostArr(name, SArrI), tb.App("umkey", SInt, v.T[0], v.T[1]))), untypedInt
+	case "rec":
+		// rec("W", k): the value recorded for loop iteration k by a loop's record clause
+		s, ok := n.Args[0].(*SStr)
+		if !ok {
+			c.fail("rec needs a string literal")
+		}
+		i, _ := arg(1)
+		return scalar(tb.Select(c.ghostArr("rec:"+s.V, SArrI), i.T[0])), untypedInt
 	case "unmarshalled":
 		// unmarshalled(y): y.UnmarshalBinary has been called (ghost flag kept by the library model)
 		v, _ := arg(0)
